@@ -239,20 +239,35 @@ fn grid(level: u32) -> Vec<Case> {
         let cs = if t.starts_with(">=") { npm_primitive(">=", p) } else if t.starts_with('>') { npm_primitive(">", p) } else if t.starts_with('^') { npm_caret(p) } else { npm_primitive("", p) };
         alt_cases.push(Case { text: t.to_string(), rr: vec![cs] });
     }
-    for a in &alt_cases { for b in &alt_cases {
+    for (ai, a) in alt_cases.iter().enumerate() { for (bi, b) in alt_cases.iter().enumerate() {
         let mut rr = a.rr.clone(); rr.extend(b.rr.clone());
-        out.push(Case { text: format!("{} || {}", a.text, b.text), rr });
+        out.push(Case { text: format!("{} || {}", a.text, b.text), rr: rr.clone() });
+        // every spelling of the separator (Display itself prints `a||b`)
+        let seps = ["||", " ||", "|| ", "  ||  "];
+        out.push(Case { text: format!("{}{}{}", a.text, seps[(ai + bi) % 4], b.text), rr });
     } }
+    // garbage tokens containing a single `|` are dropped like any other garbage
+    {
+        let find = |t: &str| ss.iter().find(|s| s.text == t).map(|s| s.cs.clone()).unwrap();
+        let mut both = find("1.2.3"); both.extend(find("2.0.0"));
+        out.push(Case { text: "1.2.3 | 2.0.0".into(), rr: vec![both] });
+        let mut c = find(">=1.0.0"); c.extend(find("<2.0.0"));
+        out.push(Case { text: ">=1.0.0 a|b <2.0.0".into(), rr: vec![c.clone()] });
+        out.push(Case { text: ">=1.0.0 | <2.0.0".into(), rr: vec![c.clone()] });
+        out.push(Case { text: "1.2.3 | || <1.0.0".into(), rr: vec![find("1.2.3"), find("<1.0.0")] });
+        out.push(Case { text: "<1.0.0 || 1.2.3 |".into(), rr: vec![find("<1.0.0"), find("1.2.3")] });
+        out.push(Case { text: ">=1.0.0 <2.0.0||3".into(), rr: vec![c, npm_primitive("", &Partial { text: "3", ma: Some(3), mi: None, pa: None, pre: vec![] })] });
+    }
     // loose spellings the crate accepts (C01): blanks after an operator, `v` prefix, leading zeros, prerelease without its hyphen,
     // surrounding blanks, unparseable tokens dropped -- each must read like the canonical spelling
     {
         let find = |t: &str| ss.iter().find(|s| s.text == t).map(|s| s.cs.clone());
-        let variants: [(&str, &str); 41] = [
+        let variants: [(&str, &str); 47] = [
             (">= 1.2.3", ">=1.2.3"), (">=v1.2.3", ">=1.2.3"), ("v1.2.3", "1.2.3"), ("=v1.2.3", "=1.2.3"), ("01.02.03", "1.2.3"), (">=01.02.03", ">=1.2.3"),
             ("1.2.3beta", "1.2.3-beta"), (">=1.2.3beta", ">=1.2.3-beta"), ("<1.2.3beta", "<1.2.3-beta"), ("~ 1.2.3", "~1.2.3"), ("^ 1.2.3", "^1.2.3"), ("~> 1.2.3", "~>1.2.3"),
             ("  1.2.3  ", "1.2.3"), ("v 1.2.3", "1.2.3"), ("^v1.2", "^1.2"), ("~v1.2", "~1.2"), ("<=v2", "<=2"), ("> 1.0.0", ">1.0.0"), ("< 2.0.0", "<2.0.0"), ("<= 1.2.3", "<=1.2.3"),
             ("= 1.2.3", "=1.2.3"), (">=1.2.3-beta", ">=1.2.3-beta"), ("^01.02", "^1.2"), ("~01.2.3", "~1.2.3"), ("1.X", "1.x"), ("1.*", "1.x"), ("1.2.*", "1.2.x"), ("1.2.X", "1.2.x"),
-            ("X", "x"), (">=1.X", ">=1.x"), (">=1.2.3-01", ">=1.2.3-1"), ("<1.2.3-01", "<1.2.3-1"), ("1.2.3-01", "1.2.3-1"), ("^1.2.3-01", "^1.2.3-1"), ("~1.2.3-001", "~1.2.3-1"), ("<1.2.X", "<1.2.x"), ("^1.2.X", "^1.2"), ("~1.X", "~1.x"), ("=1.*", "=1.x"), ("1.2.3+build", "1.2.3"), (">=1.2.3+b.1", ">=1.2.3"),
+            ("X", "x"), (">=1.X", ">=1.x"), (">=1.2.3-beta+exp.sha.5114f85", ">=1.2.3-beta"), ("1.2.3-beta+b", "1.2.3-beta"), ("<1.2.3-beta+b.1", "<1.2.3-beta"), ("^1.2.3-beta+x", "^1.2.3-beta"), ("~1.2.3-beta+x.y", "~1.2.3-beta"), ("<=1.2.3-0+0", "<=1.2.3-0"), (">=1.2.3-01", ">=1.2.3-1"), ("<1.2.3-01", "<1.2.3-1"), ("1.2.3-01", "1.2.3-1"), ("^1.2.3-01", "^1.2.3-1"), ("~1.2.3-001", "~1.2.3-1"), ("<1.2.X", "<1.2.x"), ("^1.2.X", "^1.2"), ("~1.X", "~1.x"), ("=1.*", "=1.x"), ("1.2.3+build", "1.2.3"), (">=1.2.3+b.1", ">=1.2.3"),
         ];
         for (text, canon) in variants.iter() {
             if let Some(cs) = find(canon) {
@@ -318,6 +333,27 @@ fn check_npm(prop: &str, level: u32) {
 
 // ------------------------------------------------------------------------------------------------ C04 / C16
 fn hash_of(v: &Version) -> u64 { let mut h = DefaultHasher::new(); v.hash(&mut h); h.finish() }
+/// the reference key of a version text `M.m.p[-pre][+build]`, built from the text itself (not from what the crate parsed)
+fn key_of_text(t: &str) -> K {
+    let t = t.split('+').next().unwrap();
+    let (core, pre) = match t.find('-') { Some(i) => (&t[..i], Some(&t[i + 1..])), None => (t, None) };
+    let n: Vec<u64> = core.split('.').map(|x| x.parse().unwrap()).collect();
+    let pre = match pre {
+        None => vec![],
+        Some(p) => p.split('.').map(|id| if !id.is_empty() && id.bytes().all(|b| b.is_ascii_digit()) { match id.parse::<u64>() { Ok(n) => Id::N(n), Err(_) => Id::A(id.to_string()) } } else { Id::A(id.to_string()) }).collect(),
+    };
+    K { ma: n[0], mi: n[1], pa: n[2], pre }
+}
+fn order_texts() -> Vec<String> {
+    let mut out = vec![];
+    for core in ["0.0.0", "0.0.1", "0.1.0", "1.0.0", "1.0.1", "1.1.0", "1.1.1", "2.0.0", "2.0.1", "2.3.0", "10.0.0"] {
+        for pre in ["", "-0", "-1", "-2", "-10", "-a", "-alpha", "-alpha.1", "-alpha.1.0", "-alpha.beta", "-beta", "-beta.2", "-beta.11", "-rc.1", "-rc.1a", "-rc.2", "-rc.10", "--", "-7", "-A", "-a-", "-1a", "-alpha.1a",
+                    "--1", "-rc.-", "-rc.0-", "-01", "-rc.01", "-rc.900719925474100", "-rc.1000000000000000", "-rc.18446744073709551615", "-rc.18446744073709551616", "-900719925474099", "-900719925474100"] {
+            for build in ["", "+b", "+build.5"] { out.push(format!("{}{}{}", core, pre, build)); }
+        }
+    }
+    out
+}
 fn order_versions() -> Vec<Version> {
     let mut out = vec![];
     for core in ["0.0.0", "0.0.1", "0.1.0", "1.0.0", "1.0.1", "1.1.0", "1.1.1", "2.0.0", "2.0.1", "2.3.0", "10.0.0"] {
@@ -331,8 +367,20 @@ fn order_versions() -> Vec<Version> {
     out
 }
 fn check_c04() {
-    let vs = order_versions();
-    let ks: Vec<K> = vs.iter().map(key).collect();
+    let texts = order_texts();
+    let mut vs = vec![];
+    let mut ks = vec![];
+    for t in &texts {
+        match Version::parse(t) {
+            Ok(v) => {
+                // the returned fields are exactly the denoted numbers and identifiers (numeric iff all digits and below 2^64)
+                let want = key_of_text(t);
+                if key(&v) != want { fail("C04", "parsed identifiers are the denoted ones (numeric-looking identifiers become Numeric)", format!("`{}`", t), format!("parsed {:?} expected {:?}", key(&v).pre, want.pre)); }
+                vs.push(v); ks.push(want);
+            }
+            Err(e) => fail("C04", "a well formed version text parses", format!("`{}`", t), e.to_string()),
+        }
+    }
     for (a, ka) in vs.iter().zip(&ks) { for (b, kb) in vs.iter().zip(&ks) {
         let want = kcmp(ka, kb);
         let got = a.cmp(b);
@@ -355,8 +403,9 @@ fn check_c04() {
     for w in sorted.windows(2) { if kcmp(&key(&w[0]), &key(&w[1])) == Ordering::Greater { fail("C04", "sort consistent", format!("`{}` before `{}`", w[0], w[1]), String::new()); } }
 }
 fn check_c16() {
-    let vs = order_versions();
-    let ks: Vec<K> = vs.iter().map(key).collect();
+    let texts = order_texts();
+    let vs: Vec<Version> = texts.iter().map(|t| Version::parse(t).unwrap_or_else(|e| fail("C16", "a well formed version text parses", format!("`{}`", t), e.to_string()))).collect();
+    let ks: Vec<K> = texts.iter().map(|t| key_of_text(t)).collect();
     for (a, ka) in vs.iter().zip(&ks) { for (b, kb) in vs.iter().zip(&ks) {
         let got = a.diff(b);
         let want = ref_diff(ka, kb);
@@ -493,20 +542,27 @@ fn check_c14() {
     let mut lists: Vec<Vec<Version>> = vec![vec![]];
     for a in &pool { lists.push(vec![a.clone()]); for b in &pool { lists.push(vec![a.clone(), b.clone()]); } }
     for a in pool.iter().take(7) { for b in pool.iter().take(7) { for c in pool.iter().take(7) { lists.push(vec![a.clone(), b.clone(), c.clone()]); } } }
-    for t in ["^1 || ^2", ">=1.2.3-alpha", "1.2", "~1.2.3", "*", ">=1.0.0 <2.0.0", "<2.0.0-rc.2", "1.2.3 || >4", ">=2.0.0-rc.1", "<1.2.3", ">5"] {
-        let r = Range::parse(t).unwrap();
-        for l in &lists {
+    let g = grid(0);
+    let mut texts: Vec<String> = ["^2 || >=3", ">=1.2.3-beta", "1.2", "~1.2.3", "*", ">=1.0.0 <2.0.0", "<=1.0.0", "<2.0.0-rc.1", "1.2.3 || >4", "<=2.0.0-rc.1", "<1.2.3", ">=1.2.3 <2.0.0", "1.x", "1.2.3 - 2", ">1.0.0 <=1.2.3", "^1.2"].iter().map(|s| s.to_string()).collect();
+    // comparator lists of three (a contradictory prefix followed by something else), every 7th of the grid
+    texts.extend(g.iter().filter(|c| c.text.matches(' ').count() == 2 && !c.text.contains(" - ") && !c.text.contains("||")).step_by(7).take(120).map(|c| c.text.clone()));
+    for t in &texts {
+        let t = t.as_str();
+        let c = match g.iter().find(|c| c.text == t) { Some(c) => c, None => continue };
+        let r = match Range::parse(t) { Ok(r) => r, Err(_) => continue };
+        for l in lists.iter().take(if t.matches(' ').count() == 2 { 160 } else { usize::MAX }) {
             for (which, got) in [("max", r.max_satisfying(l)), ("min", r.min_satisfying(l))] {
-                let sats: Vec<&Version> = l.iter().filter(|v| r.satisfies(v)).collect();
+                // "satisfies" is npm's reading of the range text (and must agree with the crate's own answer)
+                let sats: Vec<&Version> = l.iter().filter(|v| ref_sat(&c.rr, &key(v))).collect();
+                let inp = format!("range `{}` list {:?} ({}_satisfying)", t, l.iter().map(|v| v.to_string()).collect::<Vec<_>>(), which);
                 match got {
-                    None => if !sats.is_empty() { fail("C14", "None exactly when no element satisfies", format!("range `{}` list {:?} ({}_satisfying)", t, l.iter().map(|v| v.to_string()).collect::<Vec<_>>(), which), String::new()); },
+                    None => if !sats.is_empty() { fail("C14", "None exactly when no element satisfies", inp, String::new()); },
                     Some(m) => {
-                        let inp = format!("range `{}` list {:?} ({}_satisfying)", t, l.iter().map(|v| v.to_string()).collect::<Vec<_>>(), which);
                         if !l.iter().any(|x| std::ptr::eq(x, m)) { fail("C14", "result is an element of the slice", inp.clone(), String::new()); }
-                        if !r.satisfies(m) { fail("C14", "result satisfies the range", inp.clone(), format!("got `{}`", m)); }
+                        if !ref_sat(&c.rr, &key(m)) || !r.satisfies(m) { fail("C14", "result satisfies the range (never a prerelease the range does not admit)", inp.clone(), format!("got `{}`", m)); }
                         for s in &sats {
-                            let c = kcmp(&key(s), &key(m));
-                            if (which == "max" && c == Ordering::Greater) || (which == "min" && c == Ordering::Less) { fail("C14", "no satisfying element is more extreme", inp.clone(), format!("got `{}` but `{}` satisfies", m, s)); }
+                            let o = kcmp(&key(s), &key(m));
+                            if (which == "max" && o == Ordering::Greater) || (which == "min" && o == Ordering::Less) { fail("C14", "no satisfying element is more extreme", inp.clone(), format!("got `{}` but `{}` satisfies", m, s)); }
                         }
                     }
                 }
@@ -582,12 +638,12 @@ fn check_c18() {
             for &a in $vals.iter() { for &b in $vals.iter() { for &c in $vals.iter() {
                 let v = Version::from((a as $t, b as $t, c as $t));
                 let s = format!("{}.{}.{}", a, b, c);
-                let p = Version::parse(&s).unwrap();
+                let p = Version::parse(&s).unwrap_or_else(|e| fail("C18", "`a.b.c` built by From parses", format!("{} ({})", s, stringify!($t)), e.to_string()));
                 if v.major != p.major || v.minor != p.minor || v.patch != p.patch || v.pre_release != p.pre_release || v.build != p.build || v.to_string() != s { fail("C18", "From<(T,T,T)> == parse", format!("{} ({})", s, stringify!($t)), format!("got `{}`", v)); }
                 let d = b;
                 let v4 = Version::from((a as $t, b as $t, c as $t, d as $t));
                 let s4 = format!("{}.{}.{}-{}", a, b, c, d);
-                let p4 = Version::parse(&s4).unwrap();
+                let p4 = Version::parse(&s4).unwrap_or_else(|e| fail("C18", "`a.b.c-d` built by From parses", format!("{} ({})", s4, stringify!($t)), e.to_string()));
                 if v4.major != p4.major || v4.minor != p4.minor || v4.patch != p4.patch || v4.pre_release != p4.pre_release || v4.build != p4.build || v4.to_string() != s4 { fail("C18", "From<(T,T,T,T)> == parse", format!("{} ({})", s4, stringify!($t)), format!("got `{}`", v4)); }
             } } }
         };
